@@ -516,7 +516,10 @@ class Doist(tyming.Tymist):
             doers is list of doers to remove.
 
         """
-        rdoers = [doer for doer in doers if doer in self.doers] # ensure in .doers
+        rdoers = []
+        for doer in doers:  # ensure in .doers and unique
+            if doer in self.doers and doer not in rdoers:
+                rdoers.append(doer)
         rdeeds = deque()  # fresh deque for deeds to remove
         deeds = self.deeds  # edit update self.deeds in place
         for i in range(len(deeds)):  # iterate once over each deed
@@ -1392,7 +1395,10 @@ class DoDoer(Doer):
             doers is list of doers to remove.
 
         """
-        rdoers = [doer for doer in doers if doer in self.doers] # ensure in .doers
+        rdoers = []
+        for doer in doers:  # ensure in .doers and unique
+            if doer in self.doers and doer not in rdoers:
+                rdoers.append(doer)
         rdeeds = deque()  # fresh deque for deeds to remove
         deeds = self.deeds  # edit update self.deeds in place
         for i in range(len(deeds)):  # iterate once over each deed
